@@ -11,6 +11,7 @@ from .common import Obs, arms_of, call0, choices_of, cond_has, ctor_fields, is_z
 from .distribution import is_tag
 
 MOD = "combinators/scan.py"
+FAMILY = "C12"
 SELF = P("self")
 K = ("attr", SELF, "kernel_gen_fn")
 DIFF = G("genjax._src.core.compiler.interpreters.incremental.Diff")
@@ -86,7 +87,7 @@ def analyse(obs: Obs, prog):
     obs.add({"C34"}, "SUBTRACE", "ScanTrace.get_inner_trace", r.ret == ("call", ("attr", ("attr", SELF, "inner"), "get_inner_trace"), (P("address"),), ()), derived=r.ret, expected="self.inner.get_inner_trace(address)", where=W(ST, "get_inner_trace"))
 
     def check_build(f, inner_elem, args_term, retval_term, length, inst, where, props):
-        obs.add(props | {"C01"}, "TRACE-ARGS", inst, f.get("args") == args_term, derived=f.get("args"), expected=show(args_term), where=where)
+        obs.add(props | {"C01", FAMILY}, "TRACE-ARGS", inst, f.get("args") == args_term, derived=f.get("args"), expected=show(args_term), where=where)
         obs.add(props | {"C01", "C02", "C12"}, "SCORE-AGG", inst + "/score", f.get("score") == jsum(("stack", score_of(inner_elem))), derived=f.get("score"), expected="sum over iterations of the kernel trace's score", where=where)
         obs.add(props | {"C01", "C12"}, "TRACE-INNER", inst + "/inner", f.get("inner") == ("stack", inner_elem), derived=f.get("inner"), expected="stacked kernel traces (iteration i under index i)", where=where)
         chm = f.get("chm")
